@@ -6,6 +6,11 @@ mod c01_typed;
 mod c02;
 mod c05;
 mod c06;
+mod c07;
+mod c08;
+mod c09;
+mod ggen;
+mod sgen;
 mod c13;
 mod c14;
 mod c15;
@@ -43,6 +48,7 @@ fn main() {
 		subj::quiet_panics();
 		let code = match args.get(2).map(|s| s.as_str()) {
 			Some("C05") => c05::worker(&args[3..]),
+			Some("C09") => c09::worker(&args[3..]),
 			Some("C17") => c17::worker(&args[3..]),
 			Some("C19") => c19::worker_main(&args[3..]),
 			other => {
@@ -88,6 +94,9 @@ fn main() {
 			"C02" => c02::replay(&v),
 			"C05" => c05::replay(&v),
 			"C06" => c06::replay(&v),
+			"C07" => c07::replay(&v),
+			"C08" => c08::replay(&v),
+			"C09" => c09::replay(&v),
 			"C13" => c13::replay(&v),
 			"C14" => c14::replay(&v),
 			"C15" => c15::replay(&v),
@@ -109,6 +118,9 @@ fn main() {
 		"C02" => c02::run(&mut rep),
 		"C05" => c05::run(&mut rep),
 		"C06" => c06::run(&mut rep),
+		"C07" => c07::run(&mut rep),
+		"C08" => c08::run(&mut rep),
+		"C09" => c09::run(&mut rep),
 		"C13" => c13::run(&mut rep),
 		"C14" => c14::run(&mut rep),
 		"C15" => c15::run(&mut rep),
